@@ -134,6 +134,19 @@ let answer kw =
        | Some l ->
            "ok|" ^ flags ^ "|" ^ String.concat ";" (List.map tree_str l) ^ "|" ^
            String.concat ";" (List.map (fun t -> match uncum t with Some t' -> tree_str t' ^ "=" ^ string_of_int (int_of_z (tcost t')) | None -> "-") l))
+  | "FFCLOSED" ->
+      (* grammar start nnt then per nonterminal: nullable nfirst first* nfollow follow* (a follow element 0 = end of input,
+         t + 1 = terminal t) -> 1 when the sets are closed under the rules *)
+      let g = List.map strip (read_tgrammar ()) in
+      let start = nat_of_int (next ()) in
+      let nnt = next () in
+      let rows = times nnt (fun () ->
+        let e = next () in
+        let nf = next () in let fi = times nf (fun () -> nat_of_int (next ())) in
+        let no = next () in let fo = times no (fun () -> let v = next () in if v = 0 then None else Some (nat_of_int (v - 1))) in
+        (e, fi, fo)) in
+      let nl = List.concat (List.mapi (fun i (e, _, _) -> if e <> 0 then [nat_of_int i] else []) rows) in
+      b2s (closed_tbl g start nl (List.map (fun (_, f, _) -> f) rows) (List.map (fun (_, _, f) -> f) rows))
   | "PRUNE" ->
       (* one root n nodes: the least cost and the trees (own costs) of the DAG after minimal cost pruning *)
       let one = next () <> 0 in
